@@ -382,7 +382,25 @@ func ruleR04a(c *Ctx) {
 		if strings.HasSuffix(c.Fset.Position(fn.Pos()).Filename, "migrations_v1.go") {
 			continue // one-shot import from the v1 per-ledger schema (reads "<ledger>".log etc.), see assumptions
 		}
-		classes, _ := qa.analyse(fn)
+		classes, find := qa.analyse(fn)
+		// a named helper that transforms the query it is given (`selectLastLog(q)`): the chain continues at its
+		// call sites, where its facts are merged with the caller's (Where, …): the obligation is decided there
+		var deferred *qFacts
+		if fn.Parent() == nil {
+			nStatic := 0
+			for _, site := range c.CallersOf(fn) {
+				if sc := staticCallee(site); sc != nil && origin(sc) == origin(fn) && site.Parent() != nil && fnPkgPath(origin(site.Parent())) == pkgLedgerstore {
+					nStatic++
+				}
+			}
+			if nStatic > 0 {
+				for _, p := range fn.Params {
+					if isSelectQuery(p.Type()) {
+						deferred = classes[find(p)]
+					}
+				}
+			}
+		}
 		// With-names of the whole function (a CTE may be attached to another chain than the one that reads it)
 		withNames := map[string]bool{}
 		for _, f := range classes {
@@ -411,6 +429,9 @@ func ruleR04a(c *Ctx) {
 		sort.Slice(items, func(i, j int) bool { return items[i].table < items[j].table })
 		for _, it := range items {
 			c.seeFn(fn)
+			if deferred != nil && it.f == deferred && !it.f.ledgerWhere {
+				continue
+			}
 			nChains++
 			key := fnName(fn) + ":from-" + it.table
 			if withNames[it.table] && !it.f.bodyOf[it.table] && !it.f.ledgerWhere {
